@@ -61,6 +61,11 @@ def unit_from_string(unit_str: str | None) -> pint.Unit | None:
             except Exception:
                 logger.warning(f"Invalid unit {unit_str!r}")
                 unit = None
+        except Exception:
+            # pint evaluates the string, so any exception can be raised here,
+            # e.g ZeroDivisionError for '1/0' or a syntax error for '('
+            logger.warning(f"Invalid unit {unit_str!r}")
+            unit = None
     else:
         unit = None
     return unit
